@@ -385,6 +385,8 @@ func genAuthPlan(r *rand.Rand, tier, focus string) *vfPlan {
 				st.User = pick(r, vfHonestUsers) // on behalf of somebody (else)
 			} else if u != "" && chance(r, 0.06) {
 				st.User = strings.ToUpper(u[:1]) + u[1:] // own name, other spelling
+			} else if chance(r, 0.08) {
+				st.User = "@jar" // the name the session cookie itself carries
 			}
 			if chance(r, 0.1) {
 				st.N = int64(1 + r.IntN(2))
